@@ -40,6 +40,12 @@ def pack_children_are_flow(p, lo, hi):
 # --------------------------------------------------------------------------------------------- get_rows_sizes
 
 
+def _nonneg(e):
+    if isinstance(e, V.SOpt):
+        return both(neg(mk_bool(e.isnone)), e.val >= 0)
+    return e >= 0
+
+
 def _grs_loop(v):
     p = v.self
     i = v.i_
@@ -52,7 +58,7 @@ def _grs_loop(v):
     yield "widths", forall(0, i, lambda j: Q.seq_get(W_, j) == size[0])
     yield "heights", forall(0, i, lambda j: entry_is(Q.seq_get(H_, j), pile_item_height(p, j, size, focus)))
     yield "size-arguments", forall(0, i, lambda j: pile_item_size_is(Q.seq_get(A_, j), p, j, size, focus))
-    yield "no-negative-height-so-far", forall(0, i, lambda j: Q.seq_get(H_, j) >= 0)
+    yield "no-negative-height-so-far", forall(0, i, lambda j: _nonneg(Q.seq_get(H_, j)))
     yield "summed", psum_of(H_, i) == PH(focus, i)
     if len(size) == 2:
         IR = pile_item_rows_spec(p, size, focus)
